@@ -86,7 +86,7 @@ def cbmc_trace_inputs(goto, prop_name, timeout=300):
     except subprocess.TimeoutExpired:
         return None, "cbmc --trace timed out"
     vals = {}
-    for m in re.finditer(r"^\s+((?:in_|a\d)[A-Za-z0-9_]*)=(-?\d+|TRUE|FALSE)\b", out, re.M):
+    for m in re.finditer(r"^\s+((?:in_|a\d)[A-Za-z0-9_]*)=(-?\d+|TRUE|FALSE)(?:[uUlL]*)\b", out, re.M):
         v = m.group(2)
         vals[m.group(1)] = 1 if v == "TRUE" else 0 if v == "FALSE" else int(v)
     if "VERIFICATION FAILED" not in out or not vals:
@@ -261,7 +261,7 @@ def run_x(out: Outcome, programs, prop, max_cex=8, nshards=None, timeout_s=600, 
         return []
     if nshards is None:
         nshards = max(1, min(8, n // 40))
-    crates = xrun.build_kani_crates(work, progs, ann, sel, nshards)
+    crates = xrun.build_kani_crates(work, progs, ann, sel, nshards, plain=ann0)
     res, meta = xrun.run_kani(crates, timeout_s=timeout_s)
     out.solver_s += meta["solver_s"]
     out.vccs += meta["vccs"]
@@ -303,6 +303,10 @@ def run_x(out: Outcome, programs, prop, max_cex=8, nshards=None, timeout_s=600, 
         if not os.path.exists(goto):
             return None, "goto binary not found"
         target = c
+        if h.expect == "panic" and c.get("category") == "oob" and "no explicit panic" in c.get("description", ""):
+            # with overflow checks on, every out-of-range index dies in an overflow check, so CBMC has no returning trace;
+            # the smallest out-of-range index is tried on the real code in both profiles instead (input not from the verifier)
+            return {"in_raw": 0, "in_index": h.fld.count, "in_val_v": 0, "_synthesised": 1}, None
         if h.expect == "panic" and c.get("category") == "oob":
             cov = [cc for cc in r["checks"] if cc.get("category") == "cover" and "returned" in cc.get("description", "")]
             if not cov:
